@@ -3,6 +3,7 @@ package value
 import (
 	"errors"
 	"github.com/hneemann/iterator"
+	"github.com/hneemann/parser2"
 	"github.com/hneemann/parser2/funcGen"
 	"github.com/hneemann/parser2/listMap"
 )
@@ -66,6 +67,11 @@ type multiUseList []*multiUseEntry
 // channel. if the closure returns a list, the list is evaluated before it is
 // sent to the result channel.
 func (mu *multiUseEntry) runConsumer(itera iterator.Producer[Value], done func(error)) {
+	defer func() {
+		if rec := recover(); rec != nil {
+			done(parser2.AnyToError(rec))
+		}
+	}()
 	st := funcGen.NewEmptyStack[Value]()
 	used := false
 	var innerErr error
